@@ -221,13 +221,48 @@ def excl_arrow(tr, path, missing):
     return None
 
 
+def cond_cancelled(prog, c):
+    """the condition record says that the rewrite is already cancelled: `<..>.status == Status::Cancelled`
+    holds, written out or through a crate predicate that is exactly that test (visit_is_cancelled())"""
+    from .prov import return_exprs
+
+    if c.get("t") != "bool":
+        return False
+    e, v = hir.peel(c["e"]), c["v"]
+    while e.get("k") == "Unary" and e.get("op") == "Not":
+        e, v = hir.peel(e["x"]), not v
+    if e.get("k") == "Binary" and e.get("op") == "Ne":
+        e2 = dict(e)
+        e2["op"] = "Eq"
+        e, v = e2, not v
+    if hir.is_cancelled_test(e):
+        return v is True
+    if hir.is_call(e):
+        g = prog.resolve_local(e)
+        if g is not None and g.body is not None:
+            rets = return_exprs(g.body)
+            if len(rets) == 1 and hir.is_cancelled_test(rets[0]):
+                return v is True
+    return False
+
+
+def effect_cancels(prog, e):
+    """the effect refuses the rewrite: a write of Status::Cancelled to the file status (a crate function that
+    does it - cancel_visit - is read in line, so its write is an effect of the path as well)"""
+    if e["kind"] == "cancel":
+        return True
+    if e["kind"] == "call" and e.get("fn"):
+        g = prog.by_def.get(e["fn"])
+        return g is not None and g.body is not None and any(hir.is_cancel_write(x) for x in g.nodes())
+    return False
+
+
 def excl_cancelled(tr, path, missing):
     for c in path.conds:
-        cc = hir.cond_call(c)
-        if cc and cc[0] == "visit_is_cancelled" and cc[3] is True:
+        if cond_cancelled(tr.prog, c):
             return "rewrite already cancelled (result is an error)"
     for e in path.effects:
-        if e["kind"] == "call" and e["name"] == "cancel_visit":
+        if effect_cancels(tr.prog, e):
             return "rewrite cancelled on this path (result is an error)"
     return None
 
